@@ -91,26 +91,15 @@ def parallel_ops(ctx, exe, dbpath, ops, chunk=24):
 
 # ---------------------------------------------------------------------------------------------- (i) convert_units
 
-def model_text(wdb, desc, pass2=None):
-    """the case for `pmodel units`, as TEXT: the units token, the raw concentration lines (or SPREAD cells) of the input, the
-    element and master-species weights read from the database file by tools/dbparse.py. Names, numbers, units, `as` formulas and
-    -gfw are read by the Lean model (Txt.readCompLine, Txt.checkUnits, Formula.parseFormula), not here."""
-    ph = desc["ph"]
-    gh = wdb["elt"]["H"]
-    goh = wdb["elt"]["H"] + wdb["elt"]["O"]
-    sum0 = math.exp(-ph * LOG10) * gh
-    sum0 += math.exp((-14 + ph) * LOG10) * goh
-    L = [f"text {hx(desc['dspell'])} {hd(desc['density'])} {hd(desc['water'])} {hd(sum0)}"]
+def model_text(wdb, sol, pass2=None):
+    """one solution for `pmodel units`, as TEXT: the raw lines of the SOLUTION block — options and constituents — or the block-level
+    option lines and the column strings of a SOLUTION_SPREAD row (sol["model_ops"]), plus the element and master-species weights
+    read from the database file by tools/dbparse.py. Units in force, water, density, pH, names, numbers, `as`, -gfw are all read by
+    the Lean model (Sol.readBlock / Sol.readRow, Txt.readCompLine, Txt.checkUnits, Formula.parseFormula), not here."""
+    L = [sol["model_ops"][0]]
     if pass2:
         L.append(f"pass2 {hd(pass2['density'])} {pass2['iter']} {hd(pass2['kgw'])}")
-    L += wdb["lines"]
-    if desc.get("cells"):
-        for h, d, u in desc["cells"]:
-            L.append(f"cell {hx(h)} {hx(d)} {hx(u)}")
-    else:
-        for ln in desc["lines"]:
-            L.append(f"tline {hx(ln)}")
-    L.append("gotext")
+    L += wdb["lines"] + sol["model_ops"][1:] + ["gotext"]
     return "\n".join(L) + "\n"
 
 
@@ -134,7 +123,9 @@ def parse_model_text(lines):
     out = dict(head=None, C={}, T={}, U={}, bad=None)
     for ln in lines:
         w = ln.split()
-        if w[0] == "R":
+        if w[0] == "S":
+            out["S"] = dict(units=unhex(w[1]), water=ud(w[2]), density=ud(w[3]), ph=ud(w[4]), temp=ud(w[5]), pe=ud(w[6]), calc=int(w[7]))
+        elif w[0] == "R":
             out["head"] = (int(w[1]), ud(w[2]), unhex(w[3]))
         elif w[0] == "C":
             out["C"][unhex(w[1])] = dict(conc=ud(w[2]), units=unhex(w[3]), as_f=unhex(w[4]), gfw=ud(w[5]))
@@ -148,27 +139,32 @@ def parse_model_text(lines):
 
 
 def parse_impl_conv(block):
-    """CONV block → dict(rc, S, comps, T, R, U)"""
-    out = dict(rc=None, S=None, comps={}, T={}, R=None, U={}, n=0, err="")
+    """CONV block → dict(rc, err, sols = {n_user: dump}); a dump = S, comps, T, R, U of one initial solution"""
+    out = dict(rc=None, err="", sols={})
+    cur = None
     for ln in block:
         w = ln.split()
         if w[0] == "CONV":
             out["rc"] = int(w[1])
-        elif w[0] == "S" and out["S"] is None:
-            out["S"] = dict(n=int(w[1]), density=ud(w[2]), water=ud(w[3]), ph=ud(w[4]), gh=ud(w[5]), goh=ud(w[6]),
-                            iter=int(w[7]), kgw=ud(w[8]), units=unhex(w[9]), calc=int(w[10]))
-            out["n"] += 1
         elif w[0] == "S":
-            out["n"] += 1
-        elif w[0] == "C" and out["n"] == 1:
-            out["comps"][unhex(w[1])] = dict(conc=ud(w[2]), units=unhex(w[3]), as_f=unhex(w[4]), gfw=ud(w[5]),
+            cur = dict(S=dict(n=int(w[1]), density=ud(w[2]), water=ud(w[3]), ph=ud(w[4]), gh=ud(w[5]), goh=ud(w[6]), iter=int(w[7]),
+                              kgw=ud(w[8]), units=unhex(w[9]), calc=int(w[10]), tc=ud(w[11]), pe=ud(w[12]), patm=ud(w[13])),
+                       comps={}, T={}, R=None, U={})
+            out["sols"].setdefault(cur["S"]["n"], cur)
+        elif cur is None:
+            if w[0] == "ERR":
+                out["err"] = unhex(w[1])[-300:]
+        elif w[0] == "C":
+            cur["comps"][unhex(w[1])] = dict(conc=ud(w[2]), units=unhex(w[3]), as_f=unhex(w[4]), gfw=ud(w[5]),
                                              master=None if w[6] == "-" else ud(w[6]), minor=int(w[7]))
-        elif w[0] == "T" and out["n"] == 1:
-            out["T"][unhex(w[1])] = ud(w[2])
-        elif w[0] == "R" and out["n"] == 1:
-            out["R"] = dict(iter=int(w[1]), kgw=ud(w[2]), density=ud(w[3]), h=ud(w[4]), oh=ud(w[5]), vol=ud(w[6]))
-        elif w[0] == "U" and out["n"] == 1:
-            out["U"][unhex(w[1])] = ud(w[2])
+        elif w[0] == "T":
+            cur["T"][unhex(w[1])] = ud(w[2])
+        elif w[0] == "R":
+            cur["R"] = dict(iter=int(w[1]), kgw=ud(w[2]), density=ud(w[3]), h=ud(w[4]), oh=ud(w[5]), vol=ud(w[6]))
+        elif w[0] == "U":
+            cur["U"][unhex(w[1])] = ud(w[2])
+        elif w[0] == "E":
+            cur = None
         elif w[0] == "ERR":
             out["err"] = unhex(w[1])[-300:]
     return out
@@ -196,78 +192,113 @@ def cmp_tot(a, b, rel):
 
 def conv_check(ctx, db, desc, blk, wdb):
     """→ ('ok'|'skip'|'bad', detail). Everything the model needs is read from the input text and the database text; the engine's
-    own reading (description, number, canonical units, `as`, stored gfw, master weight) is compared with the model's."""
+    own reading (water, pH, temperature, density, description, number, canonical units, `as`, stored gfw, master weight) is compared
+    with the model's, solution by solution (every row of a SOLUTION_SPREAD)."""
     if blk and blk[0].startswith(("LOADFAIL", "CRASH")):
         return "bad", "the engine cannot load its database / crashed: " + blk[0]
-    im = parse_impl_conv(blk)
-    if im["S"] is None:
-        return "skip", "no callback (run failed before the initial solution was punched): " + im["err"][-120:]
-    pass2 = None
-    if desc["calc"]:
-        if im["R"] is None:
-            return "skip", "no second pass"
-        pass2 = im["R"]
-    mo = parse_model_text(ctx.pmodel("units", model_text(wdb, desc, pass2)))
-    if mo["bad"] or mo["head"] is None:
-        return "bad", f"model rejected the input text ({mo['bad']})"
-    if set(mo["C"]) != set(im["comps"]):
-        return "bad", f"components: engine {sorted(im['comps'])} model {sorted(mo['C'])}"
-    for name, mc in mo["C"].items():
-        ic = im["comps"][name]
-        if ic["units"] != mc["units"]:
-            return "bad", f"units of {name}: engine {ic['units']!r}, model {mc['units']!r}"
-        if ic["as_f"] != mc["as_f"]:
-            return "bad", f"`as` of {name}: engine {ic['as_f']!r}, model {mc['as_f']!r}"
-        if not close(ic["conc"], mc["conc"], 1e-15):
-            return "bad", f"number of {name}: engine {ic['conc']!r}, model {mc['conc']!r}"
-        if mc["conc"] > 0 and not close(ic["gfw"], mc["gfw"], 1e-13):
-            return "bad", f"gfw stored for {name}: engine {ic['gfw']!r} model {mc['gfw']!r}"
-    if not close(im["S"]["gh"], wdb["elt"]["H"], 0) or not close(im["S"]["goh"], wdb["elt"]["H"] + wdb["elt"]["O"], 1e-15):
-        return "bad", "gfw of H / OH"
-    if not desc["calc"]:
-        d = cmp_tot(im["T"], mo["T"], REL_MODEL)
-        if d:
-            return "bad", "first pass: " + d
-        return "ok", "first"
-    d = cmp_tot(im["U"], mo["U"], REL_MODEL)
-    if d:
-        return "bad", "density-iteration pass: " + d
-    return "ok", "iter"
+    imall = parse_impl_conv(blk)
+    if not imall["sols"]:
+        return "skip", "no callback (run failed before the initial solution was punched): " + imall["err"][-120:]
+    kind = "first"
+    for sol in desc["sols"]:
+        im = imall["sols"].get(sol["n"])
+        where = f"solution {sol['n']}: "
+        if im is None:
+            if imall["rc"]:
+                return "skip", "run stopped before " + where + imall["err"][-100:]
+            return "bad", where + "no initial solution with this number was calculated"
+        pass2 = None
+        if desc["calc"]:
+            if im["R"] is None:
+                return "skip", "no second pass"
+            pass2 = im["R"]
+        mo = parse_model_text(ctx.pmodel("units", model_text(wdb, sol, pass2)))
+        if mo["bad"] or mo["head"] is None:
+            return "bad", where + f"model rejected the input text ({mo['bad']})"
+        ms, es = mo["S"], im["S"]
+        for key, ek, tol in (("water", "water", 1e-15), ("ph", "ph", 1e-15), ("temp", "tc", 1e-15), ("pe", "pe", 1e-15)):
+            if not close(ms[key], es[ek], tol):
+                return "bad", where + f"{key}: engine {es[ek]!r}, model {ms[key]!r}"
+        if not desc["calc"] and not close(ms["density"], es["density"], 1e-15):
+            return "bad", where + f"density: engine {es['density']!r}, model {ms['density']!r}"
+        if ms["calc"] != es["calc"]:
+            return "bad", where + f"density calculate flag: engine {es['calc']}, model {ms['calc']}"
+        if set(mo["C"]) != set(im["comps"]):
+            return "bad", where + f"components: engine {sorted(im['comps'])} model {sorted(mo['C'])}"
+        for name, mc in mo["C"].items():
+            ic = im["comps"][name]
+            if desc["kind"] == "spread" and ic["units"] == "mmol/kgw":
+                # read_solution_spread's built-in default is the literal "mmol/kgw" (not passed through check_units); every string
+                # test of convert_units gives the same answer on it as on "mMol/kgw" (kernel-checked example in Properties/C15.lean)
+                ic = dict(ic, units="mMol/kgw")
+            if ic["units"] != mc["units"]:
+                return "bad", where + f"units of {name}: engine {ic['units']!r}, model {mc['units']!r}"
+            if ic["as_f"] != mc["as_f"]:
+                return "bad", where + f"`as` of {name}: engine {ic['as_f']!r}, model {mc['as_f']!r}"
+            if not close(ic["conc"], mc["conc"], 1e-15):
+                return "bad", where + f"number of {name}: engine {ic['conc']!r}, model {mc['conc']!r}"
+            if mc["conc"] > 0 and not close(ic["gfw"], mc["gfw"], 1e-13):
+                return "bad", where + f"gfw stored for {name}: engine {ic['gfw']!r} model {mc['gfw']!r}"
+        if not close(es["gh"], wdb["elt"]["H"], 0) or not close(es["goh"], wdb["elt"]["H"] + wdb["elt"]["O"], 1e-15):
+            return "bad", "gfw of H / OH"
+        if not desc["calc"]:
+            d = cmp_tot(im["T"], mo["T"], REL_MODEL)
+            if d:
+                return "bad", where + "first pass: " + d
+        else:
+            kind = "iter"
+            d = cmp_tot(im["U"], mo["U"], REL_MODEL)
+            if d:
+                return "bad", where + "density-iteration pass: " + d
+    return "ok", kind
 
 
-def restate(db, text, desc):
-    """direct oracle for a convert_units case: the same solution with every component rewritten in the base unit of the
-    same family (Mol/<den>, or eq/<den> where the component is in equivalents), the amount computed here from the written
-    number, prefix and the weight the input names. By the property both inputs describe one system."""
-    den = desc["den"]
-    lines_a = [ln for ln in text.splitlines()
-               if not ln.startswith(("SELECTED_OUTPUT", "USER_PUNCH", " -reset", " 10 x =", " 20 PUNCH", "END"))]
-    base = "mol/" + {"kgw": "kgw", "l": "l", "kgs": "kgs"}[den]
-    lines_b = ["SOLUTION 1", f" pH {desc['ph']!r}", f" density {desc['density']!r}" + (" calculate" if desc["calc"] else ""),
-               f" -water {desc['water']!r}", f" units {base}"]
-    elems = []
-    for c in desc["comps"]:
-        eff = expected_units(desc, c)
-        pre, kind, _ = G.canon_parts(eff)
-        n = c["conc"] * G.PREF[pre]
-        if kind == "g":
-            if c["gfw"] > 0:
-                g = c["gfw"]
-            elif c["as_f"]:
-                g = db.gfw(c["as_f"]) / (2.0 if (c["name"] == "Alkalinity" and c["as_f"] == "CaCO3") else 1.0)
+def strip_tail(text):
+    return "\n".join(ln for ln in text.splitlines()
+                     if not ln.startswith(("SELECTED_OUTPUT", "USER_PUNCH", " -reset", " 10 x =", " 20 PUNCH", "END"))) + "\n"
+
+
+def restate(db, text, desc, base=True):
+    """direct oracle for a convert_units case (SOLUTION block or SOLUTION_SPREAD rows): the SOLUTION blocks the input denotes, with
+    every option written out (units in force = row cell > block level > built-in, decided by the generator) and — base=True — every
+    constituent rewritten in the base unit of the family (Mol/<den>, eq/<den> for equivalents), the amount computed here from the
+    written number, prefix and the weight the input names. By the property both inputs describe the same solutions."""
+    blocks, elems = [], []
+    for sol in desc["sols"]:
+        den = sol["den"]
+        L = [f"SOLUTION {sol['n']}", f" temp {sol['temp']!r}", f" pH {sol['ph']!r}", f" pe {sol['pe']!r}",
+             f" density {sol['density']!r}" + (" calculate" if desc["calc"] else ""), f" -water {sol['water']!r}",
+             f" units {('mol/' + den) if base else sol['default']}"]
+        if sol.get("pressure", 1.0) != 1.0:
+            L.append(f" -pressure {sol['pressure']!r}")
+        for c in sol["comps"]:
+            eff = expected_units(sol, c)
+            if not base:
+                L.append(G.comp_line(c["name"], c["conc"], c["own"], c["as_f"] or None, c["gfw"] if c["gfw"] > 0 else None))
             else:
-                g = c["master"]
-            n = n / g
-        unit = ("eq/" + den) if kind == "eq" else ""
-        # the weight the input names stays on the line: per-litre / per-kg-solution conversions add it to the solute mass
-        ann = (f" as {c['as_f']}" if c["as_f"] else "") + (f" gfw {c['gfw']!r}" if c["gfw"] > 0 else "")
-        lines_b.append(f" {c['name']} {n!r} {unit}".rstrip() + ann)
-        elems.append(c["name"])
+                pre, kind, _ = G.canon_parts(eff)
+                n = c["conc"] * G.PREF[pre]
+                if kind == "g":
+                    if c["gfw"] > 0:
+                        g = c["gfw"]
+                    elif c["as_f"]:
+                        g = db.gfw(c["as_f"]) / (2.0 if (c["name"] == "Alkalinity" and c["as_f"] == "CaCO3") else 1.0)
+                    else:
+                        g = c["master"]
+                    n = n / g
+                unit = ("eq/" + den) if kind == "eq" else ""
+                # the weight the input names stays on the line: per-litre / per-kg-solution conversions add it to the solute mass
+                ann = (f" as {c['as_f']}" if c["as_f"] else "") + (f" gfw {c['gfw']!r}" if c["gfw"] > 0 else "")
+                L.append(f" {c['name']} {n!r} {unit}".rstrip() + ann)
+            if c["name"] not in elems:
+                elems.append(c["name"])
+        blocks.append("\n".join(L) + "\n")
     obs = G.observables(elems)
     pb = G.punch_block(obs)
-    a = pb + "\n".join(lines_a) + "\nEND\n"
-    b = pb + "\n".join(lines_b) + "\nEND\n"
-    return dict(kind="speciation", fam="units(restated)", k=1.0, a=a, b=b, last_only=False, obs=[(t, h) for t, h, _ in obs])
+    a = pb + strip_tail(text) + "END\n"
+    b = pb + "".join(blocks) + "END\n"
+    fam = ("units(restated)" if base else "spread_rows") + ":" + desc["kind"]
+    return dict(kind="speciation", fam=fam, k=1.0, a=a, b=b, last_only=False, last_k=None, obs=[(t, h) for t, h, _ in obs])
 
 
 # ---------------------------------------------------------------------------------------------- check_units: tables and spellings
@@ -721,10 +752,15 @@ def run(ctx):
     for (text, desc), blk in zip(cases, blocks):
         evals += 1
         st, det = conv_check(ctx, db, desc, blk, wdb)
-        hist["conv:" + desc["default"]] = hist.get("conv:" + desc["default"], 0) + 1
-        for c in desc["comps"]:
-            key = "comp:" + (c["own"] or "default") + (":as" if c["as_f"] else "") + (":gfw" if c["gfw"] else "")
-            hist[key] = hist.get(key, 0) + 1
+        hist["conv:" + desc["kind"] + ":" + desc["default"]] = hist.get("conv:" + desc["kind"] + ":" + desc["default"], 0) + 1
+        if desc["kind"] == "spread":
+            hist[f"spread:rows={len(desc['sols'])}"] = hist.get(f"spread:rows={len(desc['sols'])}", 0) + 1
+            nov = sum(1 for so in desc["sols"] if so["default"] != desc["default"])
+            hist["spread:rows_with_own_units"] = hist.get("spread:rows_with_own_units", 0) + nov
+        for so in desc["sols"]:
+            for c in so["comps"]:
+                key = "comp:" + (c["own"] or "default") + (":as" if c["as_f"] else "") + (":gfw" if c["gfw"] else "")
+                hist[key] = hist.get(key, 0) + 1
         if st == "ok":
             cstat["ok_" + det] += 1
             distinct += 1
@@ -738,8 +774,8 @@ def run(ctx):
             st2, det2 = run_pairs(ctx, exe, dbpath, [pair])[0]
             ctx.log("convert_units: code and model disagree:", det, "| oracle on the restated input:", st2, det2)
             if st2 in ("bad", "asym"):
-                ctx.violation(f"convert_units differs from its model ({det}) and the same solution restated in {pair['b'].split('units ')[1].split()[0]} "
-                              f"gives different results: {det2}",
+                ctx.violation(f"convert_units differs from its model ({det}) and the same solution(s) restated as SOLUTION blocks in the base unit "
+                              f"of the family give different results: {det2}",
                               {"kind": "pair", "pair": pair, "detail": det2, "conv": {"input": text, "desc": desc, "detail": det}})
                 corr_fail.append(None)
                 break
@@ -816,6 +852,20 @@ def run(ctx):
     if corr_fail:
         big = True          # correspondence broken: search at the thorough budget
 
+    # corpus: minimised past misses, always replayed first
+    ccount = 0
+    for cf in sorted((vlib.ROOT / "corpus" / "C15").glob("*.json")):
+        import json as _json
+        cd = _json.loads(cf.read_text())
+        cp = cd["pair"]
+        cp["obs"] = [tuple(x) for x in cp["obs"]]
+        st, det = run_pairs(ctx, exe, dbpath, [cp])[0]
+        evals += 1
+        ccount += 1
+        if st != "ok" or not det:
+            ctx.violation(f"C15 corpus case {cf.stem} ({cd.get('why', '')}): {st}: {det}", {"kind": "pair", "pair": cp, "detail": str(det)})
+    ctx.cov["corpus_cases"] = ccount
+
     # (ii) metamorphic pairs on the real engine
     n3 = 12000 if big else 620
     pairs = []
@@ -850,18 +900,19 @@ def run(ctx):
     # (ii-b) unit changes inside every family, all spellings: each convert_units case against its restatement in the base unit
     if not ctx.violations:
         sub = cases if big else cases[:150]
-        rpairs = [restate(db, t, d) for t, d in sub]
+        both = [(t, d, True) for t, d in sub] + [(t, d, False) for t, d in sub if d["kind"] == "spread"]
+        rpairs = [restate(db, t, d, bs) for t, d, bs in both]
         rres = run_pairs(ctx, exe, dbpath, rpairs)
-        for (t, d), p, (st, det) in zip(sub, rpairs, rres):
+        for (t, d, bs), p, (st, det) in zip(both, rpairs, rres):
             evals += 1
-            key = f"speciation/units-restated-{d['den']}"
+            key = (f"speciation/units-restated-{d['kind']}-{d['sols'][0]['den']}" if bs else f"speciation/spread_rows-{d['sols'][0]['den']}")
             dd = pstat.setdefault(key, {"ok": 0, "skip": 0})
             if st in ("ok", "skip"):
                 dd[st] += 1
                 distinct += st == "ok"
             else:
-                ctx.violation(f"C15 {key}: the same solution written in {d['default']} (+ per-element units) and in the base unit of the "
-                              f"family gives different results: {det}", {"kind": "pair", "pair": p, "detail": det})
+                ctx.violation(f"C15 {key}: the same solution(s) written as {d['kind']} in {d['default']} (+ per-row / per-element units) and as "
+                              f"SOLUTION blocks in the base unit of the family give different results: {det}", {"kind": "pair", "pair": p, "detail": det})
                 break
     ctx.cov["pairs"] = pstat
     ctx.cov["evaluations"] = evals
@@ -942,14 +993,18 @@ MANIFEST = dict(
          "mix_fraction_scaling; text layer (kernel-decided over the complete tables): documented_spellings_ok (69 documented spellings "
          "canonicalise, in both copies of check_units, to the unit they denote), canonical_fixed, unit_table_complete, string_tests_agree "
          "(the strstr / first-character tests of convert_units on the 27 canonical names = the structural predicates of the model), "
-         "fixup_is_check_units (27x27x2), spread_row_eq_block (a SPREAD row reads as the SOLUTION block it denotes); kernel-evaluated "
-         "instances. Correspondence, re-run every check: (a) units[] tables and replacement lists of read.cpp and Parser.cxx extracted "
+         "fixup_is_check_units (27x27x2), spread_row_eq_block (constituent columns of a SPREAD row read as the SOLUTION block they denote), "
+         "spread_row_is_block (with the solution-level options: a data row under block-level option lines = the SOLUTION block made of those "
+         "lines followed by the column strings, settings and constituents alike, hence row cell > block-level option > built-in default and "
+         "the units a constituent without units inherits are the units in force for the ROW); kernel-evaluated instances. Correspondence, re-run every check: (a) units[] tables and replacement lists of read.cpp and Parser.cxx extracted "
          "from the source = the model's; (b) both C++ check_units copies vs Txt.checkUnits on every documented spelling + seeded variants; "
-         "(c) real initial-solution runs (SOLUTION blocks and SOLUTION_SPREAD rows with units rows): the model reads the raw lines / cells "
-         "and the database weights (tools/dbparse.py) itself and must reproduce the engine's description, number, canonical units, `as`, "
-         "stored gfw and the totals map left by convert_units (density loop: real function re-invoked on the live state) at 1e-12; (d) real "
-         "add_mix / cxxSolution(mix) / multiply on real stored solutions vs the model. Exploration: base/transformed input pairs on the real "
-         "engine for units, water factor 1e-3..1e3, line and block permutations, renumbering, repeated lines/blocks, SOLUTION_SPREAD, MIX "
+         "(c) real initial-solution runs (SOLUTION blocks with option lines in any spelling and position; SOLUTION_SPREAD with block-level "
+         "options, 1-3 rows with per-row units / pH / temp / water / density / pe / pressure / description columns differing from the block "
+         "level and between rows, units row for some columns only): the model reads the raw lines / cells and the database weights "
+         "(tools/dbparse.py) itself and must reproduce, for every solution, the engine's water, pH, temperature, pe, density, description, "
+         "number, canonical units, `as`, stored gfw and the totals map left by convert_units (density loop: real function re-invoked on the live state) at 1e-12; (d) real "
+         "add_mix / cxxSolution(mix) / multiply on real stored solutions vs the model. corpus/C15 (minimised past misses) replayed first. Exploration: every conv / SPREAD case against the SOLUTION blocks it "
+         "denotes (same numbers, and restated in the base unit of the family); base/transformed input pairs on the real engine for units, water factor 1e-3..1e3, line and block permutations, renumbering, repeated lines/blocks, SOLUTION_SPREAD, MIX "
          "reorder, self-mix (split lines, copies, any total amount), common factor on all fractions, nested mixing orders with SAVE vs the "
          "direct n-way mix (mixed analyses not charge balanced, unequal water), and four-simulation SAVE/USE histories with exchange / "
          "surface / gas / kinetics / equilibrium phases under monotone and arbitrary renumbering, block order and water factor (1e-8 rel, "
@@ -957,8 +1012,9 @@ MANIFEST = dict(
     note="Trusted: harness/ph_units.cpp (friend access, BASIC callback), tools/dbparse.py (element and master weights), the independent "
          "oracle of protocol Q (tools/gens/units.py: own database reading + formula weights, used to restate a disagreeing case in the base "
          "unit of its family), comparison logic. A tree on which the database does not load or every case is skipped is reported, not passed. "
-         "Partial: what follows the weight on a concentration line (redox couple, phase, SI) and the option lines of SOLUTION/"
-         "SOLUTION_SPREAD (temp, pH, water, density) are passed through, not modelled; a SPREAD column that fails to parse is dropped in the "
+         "Partial: what follows the weight on a concentration line (redox couple, phase, SI) redox / isotope / description options and the first-line heuristics of "
+         "read_solution_spread (a heading row that looks like an option) are passed through, not modelled; the SPREAD built-in default is the literal "
+         "'mmol/kgw' (indistinguishable from mMol/kgw for convert_units, kernel-checked); a SPREAD column that fails to parse is dropped in the "
          "model while the code stores the half-read component (input error either way); invariance of the Newton solve itself is exploration "
          "only; pe is not compared (without a redox couple it is not determined by the input); floors (from the solver's acceptance "
          "criteria, see floor_for): totals/molalities 1e-8*I, mole amounts 1e-8*I*water, log quantities 1e-8 + the image of those through "
